@@ -203,6 +203,14 @@ impl H {
     pub fn tap(&self) -> Vec<u8> {
         self.0.lock().unwrap().tap.clone()
     }
+    pub fn tap_from(&self, off: usize) -> Vec<u8> {
+        let c = self.0.lock().unwrap();
+        if off >= c.tap.len() {
+            vec![]
+        } else {
+            c.tap[off..].to_vec()
+        }
+    }
     pub fn tap_len(&self) -> usize {
         self.0.lock().unwrap().tap.len()
     }
